@@ -285,8 +285,9 @@ def mkTopo (cps : List CP) (ps : List (Topology.Bond × Topology.Bond)) : Topolo
   let t2 := (List.range (extCount 1 ps)).foldl (fun t _ => Topology.addOutput t) t1
   ps.foldl (fun t p => Topology.addBond t p.1 p.2) t2
 
+/-- sections live in a Go map keyed by name: a later section of the same name replaces the earlier -/
 def findSection (ss : List (String × List RLine)) (name : String) : Option (List RLine) :=
-  (ss.find? (·.1 == name)).map (·.2)
+  (ss.reverse.find? (·.1 == name)).map (·.2)
 
 def mapE {α β : Type} (f : α → Except Err β) : List α → Except Err (List β)
   | [] => .ok []
